@@ -73,6 +73,15 @@ def load_findings():
         return json.load(f).get("findings", [])
 
 
+_findings_cache = []
+
+
+def _findings():
+    if not _findings_cache:
+        _findings_cache.append(load_findings())
+    return _findings_cache[0]
+
+
 def match_finding(findings, res):
     for f in findings:
         if f.get("status") != "known" or f.get("property") != res.get("property"):
@@ -182,9 +191,16 @@ def _worker_chunk(args):
                 rp = res.get("plan", plan)
                 entry = {"index": i, "seed": seed, "raw_sig": list(raw)}
                 cnt = _minimised_raw.get(raw, 0)
+                if match_finding(_findings(), res) is not None:
+                    # a listed known finding: minimisation only ever accepts candidates with this same signature, so the
+                    # triage by signature needs no minimised plan
+                    entry.update({"plan": rp, "res": strip(res), "min_runs": 0})
+                    out["violations"].append(entry)
+                    continue
                 if do_min and cnt < 2:
                     _minimised_raw[raw] = cnt + 1
-                    mplan, mres, used = minimise(_engine, rp, res)
+                    cap = _engine.min_cap(rp) if hasattr(_engine, "min_cap") else 300
+                    mplan, mres, used = minimise(_engine, rp, res, cap)
                     entry.update({"plan": mplan, "res": strip(mres), "min_runs": used, "unmin_plan": rp,
                                   "unmin_res": strip(res)})
                 else:
